@@ -20,6 +20,9 @@ CONSTANTS TMin, TMax, Pts,     \* abstract type and the points entries use
           MaxLen,
           FixTrunc, FixGuard, FixOct0,   \* BOOLEAN, see ValueMapImplOps
           FixSkip, FixUncl,              \* BOOLEAN, see ValueMapImplOps
+          FixCase, FixItems,             \* BOOLEAN: fl.vbx, fl.itl
+          Lenient,                       \* fl.len: subset of BadClasses
+          WithLex,                       \* BOOLEAN: BAD entries of every lexeme class
           Emit,                          \* BOOLEAN
           WithBad                        \* BOOLEAN: BAD / oct0 / reversed entries
 
@@ -29,7 +32,13 @@ VARIABLES map,     \* the ValueMap array built so far
 vars == <<map, len>>
 
 Flags == [trunc |-> FixTrunc, guard |-> FixGuard, oct0 |-> FixOct0,
-          skip |-> FixSkip, uncl |-> FixUncl]
+          skip |-> FixSkip, uncl |-> FixUncl, vbx |-> FixCase,
+          len |-> Lenient, itl |-> FixItems]
+LenNone == {}
+LenNl == {"nl"}
+LenUdigit == {"udigit"}
+LenInt == {"ws", "under", "udigit"}
+ASSUME Lenient \subseteq BadClasses
 
 (* cfg files cannot contain negative numbers *)
 PtsU4 == {0, 1, 3, 4, 5, 15}
@@ -49,10 +58,23 @@ Alphabet ==
   \cup {Ent("R", p, 0, FALSE, TRUE, "dec") : p \in Pts}
   \cup {Ent("U", 0, 0, TRUE, TRUE, "dec")}
   \cup (IF WithBad
-        THEN {Ent("BAD", 0, 0, FALSE, FALSE, "dec"),
+        THEN {Ent("BAD", 0, 0, FALSE, FALSE, "junk"),
               Ent("S", 4, 4, FALSE, FALSE, "oct0"),
               Ent("R", 5, 3, FALSE, FALSE, "dec")}
         ELSE {})
+  \* malformed entries of every other lexeme class, in every shape a too
+  \* lenient reader could take them for: single, closed range, open low /
+  \* high end (the offending token is the number or one of the bounds)
+  \cup (IF WithLex
+        THEN LET a == MinOf(Pts \ {TMin, TMax})
+                 b == MinOf(Pts \ {TMin, TMax, a}) IN
+             UNION {{Ent("BAD", a, a, FALSE, FALSE, c),
+                     Ent("BAD", a, b, FALSE, FALSE, c),
+                     Ent("BAD", 0, b, TRUE, FALSE, c),
+                     Ent("BAD", a, 0, FALSE, TRUE, c)} :
+                    c \in BadClasses \ {"junk"}}
+        ELSE {})
+HasLex(m) == \E i \in DOMAIN m : m[i].k = "BAD" /\ m[i].nt # "junk"
 
 ValName == <<"s1", "s2", "s3", "s4", "s5", "s6", "s7", "s8", "s9", "s10">>
 
@@ -82,8 +104,26 @@ VectorsE(m) ==
      q \in 0..(Len(m) + 1),
      d \in BOOLEAN, emp \in 0..(Len(m) + 1), df \in {"dflt", ""}}
 
+(* Values strings that differ only in lexical case: every Values array of *)
+(* n-1 .. n+1 strings over three case variants of one word and another     *)
+(* word, values_default a further variant / a variant in use / none        *)
+CaseWords == {"ab", "AB", "Ab", "cd"}
+VecC(m, vals, hasdflt, dflt) ==
+  [Vec(m, TRUE, TRUE, 0, hasdflt) EXCEPT !.vals = vals, !.dflt = dflt]
+VectorsC(m) ==
+  {VecC(m, vals, d[1], d[2]) :
+     vals \in UNION {[1..q -> CaseWords] :
+                      q \in {x \in {Len(m) - 1, Len(m), Len(m) + 1} : x >= 0}},
+     d \in {<<FALSE, "dflt">>, <<TRUE, "aB">>, <<TRUE, "AB">>}}
+  \cup (IF m = << >>
+        THEN {[VecC(m, vals, FALSE, "dflt") EXCEPT !.hasmap = FALSE] :
+                vals \in UNION {[1..q -> CaseWords] : q \in 1..3}}
+        ELSE {})
+
 AllV == [j \in 1..(TMax - TMin + 1) |-> TMin + j - 1]
-Queries(e) == e.vals \o <<e.dflt, "nosuch">>
+(* tobinary is asked for every Values string, the default, a foreign string *)
+(* and case variants of Values strings that are not Values strings         *)
+Queries(e) == e.vals \o <<e.dflt, "nosuch", "aB", "Cd">>
 
 Init == map = << >> /\ len = 0
 Next == /\ len < MaxLen
@@ -104,6 +144,8 @@ ImplEqualsOn(V) ==
 ImplEqualsClaims == ImplEqualsOn(Vectors(map))
 (* ... also when Values strings / values_default are the empty string *)
 ImplEqualsClaimsE == ImplEqualsOn(VectorsE(map))
+(* ... and when Values strings differ only in lexical case *)
+ImplEqualsClaimsC == ImplEqualsOn(VectorsC(map))
 
 (* the requirement is satisfiable: the direct reading of the statement    *)
 (* (first admissible resolution, first admissible claimant, every entry   *)
@@ -142,4 +184,16 @@ EmitInv == ~Emit \/ map = << >> \/ PrintT(<<"VEC", ToJson(map)>>)
 (* neighbour combinations (array end / single / closed end / facing open   *)
 (* end behind the run) over the alphabet of the cfg                        *)
 EmitUInv == ~Emit \/ ~OpenNextToU(map) \/ PrintT(<<"VECU", ToJson(map)>>)
+(* every array with a malformed entry of a lexeme class other than "junk"  *)
+EmitLexInv == ~Emit \/ ~HasLex(map) \/ PrintT(<<"VECL", ToJson(map)>>)
+(* the Values arrays / values_default of VectorsC (they do not depend on   *)
+(* the entries, only on the length: emitted once per length, for the array *)
+(* of ".." entries); the binding combines them with the enumerated arrays  *)
+EmitCaseInv ==
+  \/ ~Emit
+  \/ \E i \in DOMAIN map : map[i].k # "U"
+  \/ \A e \in VectorsC(map) :
+       PrintT(<<"VECC", ToJson([n |-> Len(map), hasmap |-> e.hasmap,
+                                hasdflt |-> e.hasdflt, dflt |-> e.dflt,
+                                vals |-> e.vals])>>)
 =============================================================================
